@@ -301,6 +301,8 @@ constraint.  `none` = the Python would have to call `VersionUnion.of` again. -/
 def rcUnionSingle : RC → RC → PyM (Option RC)
   | .ver a, c =>
     if c.allows a then .ok (some c)
+    -- weak equality: `1.0` admits `1.0+local` (repo fix: union of a version with a local build of it)
+    else if (match c with | .ver b => a.allows b | _ => false) then .ok (some (.ver a))
     else if (match c.min with | some m => a.allows m | none => false) then
       .ok (some (.rng ⟨c.min, c.max, true, c.imax⟩))
     else if (match c.max with | some m => a.allows m | none => false) then
